@@ -295,12 +295,12 @@ func (t *trzszTransfer) recvPrefixHash(writer fileWriter, srcFile *sourceFile, t
 		}
 
 		step := hash.Step - matchStep
-		buffer := make([]byte, step)
-		n, err := io.ReadFull(file, buffer)
-		if err != nil {
+		if step <= 0 { // the step comes from the peer
+			return simpleTrzszError("Invalid hash step: %d", hash.Step)
+		}
+		if _, err := io.CopyN(hasher, file, step); err != nil {
 			return err
 		}
-		hasher.Write(buffer[:n])
 
 		match = hash.Hash == fmt.Sprintf("%x", hasher.Sum(nil))
 		if match {
